@@ -85,6 +85,38 @@ def compare(ctx, O, d, cand, tag=""):
             "accepts" if got else "rejects", "valid" if strict else "invalid", tag))
 
 
+def confusable_variants(x):
+    """Copies of x in which exactly one scalar is replaced by a Python-equal but JSON-different value."""
+    out = []
+    swaps = {True: [1, 1.0], False: [0, 0.0]}
+
+    def alt(v):
+        if isinstance(v, bool):
+            return swaps[v]
+        if isinstance(v, int) and v in (0, 1):
+            return [bool(v), float(v)]
+        if isinstance(v, int) and abs(v) < 2 ** 50:
+            return [float(v)]
+        if isinstance(v, float) and v in (0.0, 1.0):
+            return [bool(v), int(v)]
+        if isinstance(v, float) and v == int(v) and abs(v) < 2 ** 50:
+            return [int(v)]
+        return []
+
+    def go(node, rebuild):
+        if isinstance(node, dict):
+            for k, v in node.items():
+                go(v, lambda nv, k=k, node=node, rebuild=rebuild: rebuild(dict(node, **{k: nv})))
+        elif isinstance(node, list):
+            for i, v in enumerate(node):
+                go(v, lambda nv, i=i, node=node, rebuild=rebuild: rebuild(node[:i] + [nv] + node[i + 1:]))
+        else:
+            for a in alt(node):
+                out.append(rebuild(a))
+    go(x, lambda nv: nv)
+    return out
+
+
 def run(ctx):
     impl.quiet()
     O = Oracle()
@@ -147,6 +179,12 @@ def run(ctx):
             compare(ctx, O, d, bad, tag="(mutated %r)" % (where,))
         if rng.random() < 0.2:
             compare(ctx, O, d, V.value(rng, 3))
+        if i % 5 == 0:
+            # right after an accepted schema: the same schema with true<->1, false<->0, 1<->1.0 swapped somewhere
+            for sw in confusable_variants(S)[:4]:
+                ctx.count("confusable_followups")
+                compare(ctx, O, d, S, tag="(generated)")
+                compare(ctx, O, d, sw, tag="(python-equal variant right after its original)")
         if i % 301 == 0:
             ctx.sample({"draft": d, "candidate": bad})
 
